@@ -32,7 +32,8 @@ CLAIM = dict(
           "width/height >= 1 (0 is modelled as ZeroDivisionError for the torus functions)."),
     technique="Lean 4 theorems over a hand-written model + differential correspondence + Lean spec as oracle")
 
-THEOREMS = ["links_consistent", "hexLen_unit_step", "meshLen_eq_dist", "torusLen_eq_dist", "torusLen_error"]
+THEOREMS = ["links_consistent", "hexLen_unit_step", "meshLen_eq_dist", "torusLen_eq_dist", "torusLen_error",
+            "minimise_xyz_spec", "toXyz_proj", "meshPath_ok", "torusPath_ok", "randint_surjective"]
 
 RULE = ("torus cases: for chosen (w, h, source chip) every or many destination chips, each in a random three-axis "
         "representation (random z offset, occasional multiples of w/h added), sizes include every w,h in 1..5; "
